@@ -21,3 +21,5 @@ def cases(rng, tier):
     n = 1500 if tier == "quick" else 60000
     for _ in range(n):
         yield ("sets_run", [sc.rand_history(rng, rng.randint(1, 30), W_MUT)], "history")
+    for _ in range(8 if tier == "quick" else 300):
+        yield ("sets_run", [sc.big_history(rng)], "big_sets")
